@@ -467,7 +467,7 @@ Spec == Init /\ [][Next]_vars
 (***************************************************************************)
 \* C13: whatever has been written conforms to the documented format (what a kill inside the
 \* removal of a version left of that version is not something conserve wrote)
-Inv_Format == {v \in FormatViol(fs) : v[2] \notin cnt.torn} = {}
+Inv_Format == {v \in FormatViol(fs) : v[2] \notin cnt.torn} = {} /\ TailsCounted(fs)
 
 \* C03 / C04 / C05: no index entry anywhere names a block that is missing or too short
 Inv_NoDangling == Dangling(fs, Bands(fs)) = {}
